@@ -90,6 +90,12 @@ int main(int argc, char **argv) {
       rc = ldb_backup(db, bak);
       EV("backup", "\"n\":%d,\"rc\":%d", nbak, rc);
       if (rc == 0) {
+        /* the source keeps being used before the backup is first opened: later writes, a flush and a compaction
+           must never show up in (or break) the backup */
+        int j, nw = d_rn(4);
+        for (j = 0; j < nw; j++) { int k = d_rn(NK), id = nextid++, wrc; char *v = d_mkval(id, 20); ldb_slice_t key = d_key(k), val = ldb_slice(v, 20);
+          wrc = ldb_put(db, &key, &val, NULL); free(v); EV("put", "\"p\":0,\"k\":%d,\"v\":%d,\"rc\":%d", k, id, wrc); }
+        if (nw && d_rn(2)) { ldb_test_compact_memtable(db); if (d_rn(2)) ldb_test_compact_range(db, 0, NULL, NULL); }
         rc = ldb_open(bak, &O.o, &bdb); buf[0] = 0; st = -1;
         if (rc == 0) { scan_to(bdb, buf, &st); ldb_close(bdb); }
         EV("backup_scan", "\"n\":%d,\"rc\":%d,\"status\":%d,\"items\":[%s]", nbak, rc, st, buf);
